@@ -116,7 +116,7 @@ var props = map[string]*propConfig{
 			{Name: "saturation", Flags: map[string]string{"family": "saturation"}, Quick: 4000, Thorough: 600000},
 		},
 		QuickBudget: 90 * time.Second, ThoroughBudget: 25 * time.Minute, Chunk: 125,
-		Rule: "one run = one seeded execution of 2..4 threads x 1..6 counters (shared, private, same-name aliases, long names that cross pages, stack counters) with a concurrent first open, file growth and clock-driven rotation, scheduled at the granularity of single atomic operations, lock acquisitions and Counter.ptr accesses; distinct = distinct event-log hash; non-trivial = at least one context switch between live tasks",
+		Rule: "one run = one seeded execution of 2..4 threads x 1..6 counters (shared, private, same-name aliases, long names that cross pages, stack counters) with a concurrent first open, file growth and clock-driven rotation, scheduled at the granularity of single atomic operations, lock acquisitions and Counter.ptr accesses; distinct = distinct event-log hash; non-trivial = at least one context switch between live tasks; names include the longest a record can hold, names no record can hold (empty, over 4096 bytes: their counts stay in memory by design) and stack names cut to the maximum length; one to three rotations in a row",
 		Real: []string{"internal/counter (all of it, instrumented build generated from the working tree)", "internal/mmap", "internal/telemetry", "Linux tmpfs and mmap(MAP_SHARED)"},
 		Stub: []string{"munmap replaced by mprotect(PROT_NONE) so that use-after-unmap faults deterministically", "Go scheduler (replaced by the tape-driven scheduler)", "wall clock"},
 		Assumptions: []string{
@@ -132,7 +132,7 @@ var props = map[string]*propConfig{
 			{Name: "kills", Flags: map[string]string{"family": "kills"}, Quick: 24000, Thorough: 3200000},
 		},
 		QuickBudget: 90 * time.Second, ThoroughBudget: 25 * time.Minute, Chunk: 50,
-		Rule: "one run = 2..4 simulated processes (independent counter.file objects and mappings of one shared file, 1..2 threads each) incrementing names drawn from a pool with same-name, same-bucket (colliding), page-crossing and page-end-sized names, scheduled at single-atomic-operation granularity, with 0..3 kills placed at a random step or right after the victim's k-th limit CAS / head CAS / record write / extension write / mmap; the file is strictly decoded by an independent decoder after every step; distinct = distinct event-log hash; non-trivial = at least one context switch between live tasks or a kill; one run in six has a foreign opener (same file name, other build metadata) that must be refused once the file exists; the header metadata of an initialised file must never change",
+		Rule: "one run = 2..4 simulated processes (independent counter.file objects and mappings of one shared file, 1..2 threads each) incrementing names drawn from a pool with same-name, same-bucket (colliding), page-crossing and page-end-sized names, scheduled at single-atomic-operation granularity, with 0..3 kills placed at a random step or right after the victim's k-th limit CAS / head CAS / record write / extension write / mmap; the file is strictly decoded by an independent decoder after every step; distinct = distinct event-log hash; non-trivial = at least one context switch between live tasks or a kill; one run in six has a foreign opener (same file name, other build metadata) that must be refused once the file exists; the header metadata of an initialised file must never change; one run in six ends the week for all processes at once (they race to create the next file); kills also late in the run, with classes of their own for the record-level compare-and-swap",
 		Real: []string{"internal/counter", "internal/mmap", "internal/telemetry", "Linux tmpfs, mmap(MAP_SHARED) coherence between several mappings in one address space", "real munmap in half of the runs"},
 		Stub: []string{"processes are simulated: one address space, one counter.file object per process; kill = never scheduled again, nothing unwound", "Go scheduler", "wall clock"},
 		Assumptions: []string{
@@ -148,7 +148,7 @@ var props = map[string]*propConfig{
 			{Name: "histories", Flags: map[string]string{"family": "histories"}, Quick: 8000, Thorough: 2400000},
 		},
 		QuickBudget: 90 * time.Second, ThoroughBudget: 25 * time.Minute, Chunk: 50,
-		Rule:        "one run = a history of 1..3 sessions (create / increment / close / reopen by new process objects = restart / extend), 1..3 concurrent writer processes per session, over a pool of names of 1..4096 bytes of arbitrary content (ASCII, any byte incl. NUL and newline, non-UTF-8, ditto marks), build metadata up to and beyond the 512-byte cap, optionally starting from a file written by the independent encoder (different placement policy); every intermediate snapshot is strictly decoded; the final content must equal the model and the library's Parse must agree with the independent decoder; distinct = distinct event-log hash; distinct_states counts distinct (previous limit mod 16384, name length) placement cases reached",
+		Rule:        "one run = a history of 1..3 sessions (create / increment / close / reopen by new process objects = restart / extend), 1..3 concurrent writer processes per session, over a pool of names of 1..4096 bytes of arbitrary content (ASCII, any byte incl. NUL and newline, non-UTF-8, ditto marks), build metadata up to and beyond the 512-byte cap, optionally starting from a file written by the independent encoder (different placement policy); every intermediate snapshot is strictly decoded; the final content must equal the model and the library's Parse must agree with the independent decoder; distinct = distinct event-log hash; distinct_states counts distinct (previous limit mod 16384, name length) placement cases reached; metadata clearly below the cap must be accepted",
 		Real:        []string{"internal/counter", "internal/mmap", "internal/telemetry", "Linux tmpfs / mmap"},
 		Stub:        []string{"processes simulated in one address space", "Go scheduler", "wall clock"},
 		Assumptions: []string{"refformat (independent codec written from the layout comment) is the oracle", "scheduling points as in C03", "sampling, not enumeration"},
@@ -162,7 +162,7 @@ var props = map[string]*propConfig{
 			{Name: "upload-failures", Harness: "h2", Flags: map[string]string{"family": "upload"}, Quick: 240, Thorough: 80000},
 		},
 		QuickBudget: 100 * time.Second, ThoroughBudget: 14 * time.Minute, Chunk: 10,
-		Rule: "call-failures: one seeded workload (1..2 processes x 1..2 threads, first open, increments incl. page growth, optional rotation, optional deletion of files in use, directory found as a regular file) is executed fault-free to count its N file-system/mmap calls, then re-executed once per (call index, errno in ENOENT/EACCES/EROFS/ENOSPC/EIO/EMFILE/EINTR, or short write) [quick: every call with a third of the errnos plus all short writes], once per persistent state (read-only, permission denied, mmap always failing) and for a sample of pairs (thorough: all pairs when N<=60); corruption-at-rest: a valid file built by the independent encoder is damaged (random bytes, truncation classes, header length, limit, bucket heads, name lengths, next links incl. self-loops, longer cycles and cross-chain links, for plain and ditto-compressed stack names) and then opened and incremented by the library; evaluations = executions; distinct = distinct event-log hash of the last execution of each workload; non-trivial = a fault fired or the file was damaged; upload-failures: the directory as found may also hold files whose names only nearly match the data-file patterns (x.json, .json, local..json, 2024.json, .v1.count, ...); both worlds may find a mode file cut short or otherwise odd",
+		Rule: "call-failures: one seeded workload (1..2 processes x 1..2 threads, first open, increments incl. page growth, optional rotation, optional deletion of files in use, directory found as a regular file) is executed fault-free to count its N file-system/mmap calls, then re-executed once per (call index, errno in ENOENT/EACCES/EROFS/ENOSPC/EIO/EMFILE/EINTR, or short write) [quick: every call with a third of the errnos plus all short writes], once per persistent state (read-only, permission denied, mmap always failing) and for a sample of pairs (thorough: all pairs when N<=60); corruption-at-rest: a valid file built by the independent encoder is damaged (random bytes, truncation classes, header length, limit, bucket heads, name lengths, next links incl. self-loops, longer cycles and cross-chain links, for plain and ditto-compressed stack names) and then opened and incremented by the library; evaluations = executions; distinct = distinct event-log hash of the last execution of each workload; non-trivial = a fault fired or the file was damaged; upload-failures: the directory as found may also hold files whose names only nearly match the data-file patterns (x.json, .json, local..json, 2024.json, .v1.count, ...); both worlds may find a mode file cut short or otherwise odd; directory states include odd week-end files; persistent states include a file system without hard links and disk full / read-only / mmap failing from call k on",
 		Real: []string{"internal/counter", "internal/mmap", "internal/telemetry", "Linux tmpfs / mmap"},
 		Stub: []string{"failing calls are injected by the file-system shim instead of being performed", "Go scheduler", "wall clock"},
 		Assumptions: []string{
@@ -180,7 +180,7 @@ var props = map[string]*propConfig{
 			{Name: "well-formed-files", Flags: map[string]string{"family": "wellformed"}, Quick: 4000, Thorough: 1200000},
 		},
 		QuickBudget: 90 * time.Second, ThoroughBudget: 12 * time.Minute, Chunk: 50,
-		Rule:        "live-snapshots: Parse is run on the bytes of the shared counter file after every scheduler step of a multi-process history with kills (every intermediate state: reserved-unlinked records, dead records, half-grown files) and compared with the independent decoder whenever that accepts the snapshot; damaged-at-rest: Parse on structurally damaged files (see C05) must return within a loop budget, and must agree with the independent decoder when the damage left the file well-formed; well-formed-files: Parse on the final files of the C10 histories (names of 1..4096 bytes of any content, stack names with method, closure and generic frames under ditto compression) must return exactly what the independent decoder and stack expander read. Claimed only for the clauses that meet the simulated schedule and disk; totality over all byte strings (random / coverage-guided) is not decided by this family",
+		Rule:        "live-snapshots: Parse is run on the bytes of the shared counter file after every scheduler step of a multi-process history with kills (every intermediate state: reserved-unlinked records, dead records, half-grown files) and compared with the independent decoder whenever that accepts the snapshot; damaged-at-rest: Parse on structurally damaged files (see C05) must return within a loop budget, and must agree with the independent decoder when the damage left the file well-formed; well-formed-files: Parse on the final files of the C10 histories (names of 1..4096 bytes of any content, stack names with method, closure and generic frames under ditto compression) must return exactly what the independent decoder and stack expander read. Claimed only for the clauses that meet the simulated schedule and disk; totality over all byte strings (random / coverage-guided) is not decided by this family; encoded files carry values up to 2^64-1 and chains of hundreds of records",
 		Real:        []string{"internal/counter.Parse, DecodeStack (instrumented: loop budget)", "internal/counter writers producing the snapshots"},
 		Stub:        []string{"Go scheduler", "wall clock"},
 		Assumptions: []string{"refformat and refstack are the oracle", "two stored names that expand to the same text are not generated (the documentation does not say which wins)"},
@@ -193,7 +193,7 @@ var props = map[string]*propConfig{
 			{Name: "uploader-side", Harness: "h2", Flags: map[string]string{"family": "uploader"}, Quick: 8000, Thorough: 2000000},
 		},
 		QuickBudget: 90 * time.Second, ThoroughBudget: 20 * time.Minute, Chunk: 100,
-		Rule:        "one run = a rotating process on a simulated calendar (instants 1990..2060 biased to 23:59:59 / 00:00:00, month, year and leap boundaries, and to the last 90 s of a day), week-end setting valid 0..6 / missing / empty / garbage, 1..3 phases of concurrent increments during which the clock jumps to end-1ns, end, end+1ns, hours or weeks later; the real rotate re-arms itself through the simulated AfterFunc; checked: begin/end/name of every file created against refcal, old files frozen once a rotation completed, rotation liveness after the clock stops, conservation; distinct = distinct event-log hash; in a third of the runs a second program starts at the same moment (shared week-end file, created by whoever comes first)",
+		Rule:        "one run = a rotating process on a simulated calendar (instants 1990..2060 biased to 23:59:59 / 00:00:00, month, year and leap boundaries, and to the last 90 s of a day), week-end setting valid 0..6 / missing / empty / garbage, 1..3 phases of concurrent increments during which the clock jumps to end-1ns, end, end+1ns, hours or weeks later; the real rotate re-arms itself through the simulated AfterFunc; checked: begin/end/name of every file created against refcal, old files frozen once a rotation completed, rotation liveness after the clock stops, conservation; distinct = distinct event-log hash; in a third of the runs a second program starts at the same moment (shared week-end file, created by whoever comes first); the machine may live in a local time zone; week-end digits also in the forms an editor leaves; checked in addition: no file is created before the end of the one in use (unless the clock was set back), conservation, and crashes of this world are reported here",
 		Real:        []string{"internal/counter (rotate, rotate1, counterSpan, weekEnd)", "internal/telemetry"},
 		Stub:        []string{"clock and AfterFunc simulated", "Go scheduler"},
 		Assumptions: []string{"uploader-side family (machine world): the run's start time is placed at end-1ns, end, end+1ns and later relative to the recorded end of a counter file on a 1990..2060 calendar; a file is consumed iff its end is before the start time and is reported under the week named by its end date (the C07 oracle with that start time), files not consumed receive no mutating call", "UTC only, as the code"},
@@ -203,7 +203,7 @@ var props = map[string]*propConfig{
 		Harness: "h2", Level: "exploration",
 		Families:    []family{{Name: "concurrent-uploaders", Flags: map[string]string{"family": "plain"}, Quick: 12000, Thorough: 2000000}},
 		QuickBudget: 100 * time.Second, ThoroughBudget: 25 * time.Minute, Chunk: 50,
-		Rule:        "one run = a machine history of 2..4 rounds over simulated weeks: counter files of 3 programs x versions x Go versions x platforms (expired, active, empty, unreadable, near-miss names), then 1..4 concurrent real upload.Run calls in mode on or local scheduled at file-system/HTTP-call granularity with tape-permuted map order, server fates from the tape; after each round the reference aggregation is compared with local.<week>.json for every week that had no report, the call log is checked for removals before a report exists and for any mutating call on active/unreadable files, and existing reports must keep their bytes; distinct = distinct event-log hash; non-trivial = at least one context switch between live uploaders; in a third of the runs the machine lives in a local time zone (UTC-8, UTC+14, UTC-11:30) that every time.Now() carries, and one uploader in five is handed its start time in such a zone; a program named local.tool is in the pool",
+		Rule:        "one run = a machine history of 2..4 rounds over simulated weeks: counter files of 3 programs x versions x Go versions x platforms (expired, active, empty, unreadable, near-miss names), then 1..4 concurrent real upload.Run calls in mode on or local scheduled at file-system/HTTP-call granularity with tape-permuted map order, server fates from the tape; after each round the reference aggregation is compared with local.<week>.json for every week that had no report, the call log is checked for removals before a report exists and for any mutating call on active/unreadable files, and existing reports must keep their bytes; distinct = distinct event-log hash; non-trivial = at least one context switch between live uploaders; in a third of the runs the machine lives in a local time zone (UTC-8, UTC+14, UTC-11:30) that every time.Now() carries, and one uploader in five is handed its start time in such a zone; a program named local.tool is in the pool; the directory name may carry a date; foreign json files, a debug directory with data-named files, several files of one build in a week, near-miss identities, empty metadata values and values up to 2^50 occur; a configuration may be published in mid-round",
 		Real:        []string{"internal/upload (all of it: findWork, reports, createReport, uploadReport; instrumented)", "internal/telemetry (mode file)", "internal/config", "internal/counter.Parse (uninstrumented in this world)", "cmd/gotelemetry runOn/runLocal/runOff/runClean", "Linux tmpfs (O_EXCL, link, rename semantics are the kernel's)"},
 		Stub:        []string{"internal/configstore.Download replaced by a stub that hands out the simulated config store's current version (the real one runs `go mod download`)", "upload server: a policy stub deciding each request's fate (200 / 4xx / 5xx / no answer / processed-but-answer-lost / duplicate delivery); its verdict on a given body is stable", "counter files are produced by the independent encoder (refformat)", "crypto/rand.Reader replaced so that X is chosen by the tape", "Go scheduler, wall clock"},
 		Assumptions: []string{"weeks mixing expired and unexpired files of one end date are not generated (ends are midnights)", "sums stay far below 2^62", "sampling, not enumeration"},
@@ -240,7 +240,7 @@ var props = map[string]*propConfig{
 			{Name: "counter-api-off", Harness: "h1", Flags: map[string]string{"family": "counteroff"}, Quick: 4000, Thorough: 400000},
 		},
 		QuickBudget: 100 * time.Second, ThoroughBudget: 25 * time.Minute, Chunk: 50,
-		Rule:        "histories in which between rounds the mode changes (SetModeAsOf with back-dated opt-in dates, arbitrary bytes in the mode file, invalid modes) and counter-file begin/end, opt-in date and run time are placed on a simulated calendar; per request: the independently parsed mode is exactly on, the week is not in the future and after the opt-in date; per uploadable report: built in mode on, week not older than 21 days, X not above a positive sample rate, all data strictly after the opt-in date; rounds in mode off: no mutating call on and no change to any counter file or report; SetModeAsOf/Mode round trip and rejection of invalid modes leaving the bytes unchanged; a third of the library calls are SetMode without a time (today's UTC date must be read back, also when the file already names that mode)",
+		Rule:        "histories in which between rounds the mode changes (SetModeAsOf with back-dated opt-in dates, arbitrary bytes in the mode file, invalid modes) and counter-file begin/end, opt-in date and run time are placed on a simulated calendar; per request: the independently parsed mode is exactly on, the week is not in the future and after the opt-in date; per uploadable report: built in mode on, week not older than 21 days, X not above a positive sample rate, all data strictly after the opt-in date; rounds in mode off: no mutating call on and no change to any counter file or report; SetModeAsOf/Mode round trip and rejection of invalid modes leaving the bytes unchanged; a third of the library calls are SetMode without a time (today's UTC date must be read back, also when the file already names that mode); the mode file may be removed; one start in five is placed exactly 21 days after a week's end (-1 ns, 0, +1 ns)",
 		Real:        []string{"internal/upload (all of it: findWork, reports, createReport, uploadReport; instrumented)", "internal/telemetry (mode file)", "internal/config", "internal/counter.Parse (uninstrumented in this world)", "cmd/gotelemetry runOn/runLocal/runOff/runClean", "Linux tmpfs (O_EXCL, link, rename semantics are the kernel's)"},
 		Stub:        []string{"internal/configstore.Download replaced by a stub that hands out the simulated config store's current version (the real one runs `go mod download`)", "upload server: a policy stub deciding each request's fate (200 / 4xx / 5xx / no answer / processed-but-answer-lost / duplicate delivery); its verdict on a given body is stable", "counter files are produced by the independent encoder (refformat)", "crypto/rand.Reader replaced so that X is chosen by the tape", "Go scheduler, wall clock"},
 		Assumptions: []string{"counter-api-off family (counter world): with the mode file saying off when the process starts, Open / OpenAndRotate (package-level and per-file), increments, the rotation timer and clock jumps perform no mutating file-system call and leave the directory (incl. data left from earlier) byte-identical", "an unreadable mode file is modelled by content the parser cannot read, not by permissions (the sandbox runs as root)"},
@@ -263,7 +263,7 @@ var props = map[string]*propConfig{
 			{Name: "token-within-24h", Flags: map[string]string{"family": "within24h"}, Quick: 8000, Thorough: 1600000},
 		},
 		QuickBudget: 100 * time.Second, ThoroughBudget: 12 * time.Minute, Chunk: 50,
-		Rule:        "one run = 2..8 starter processes (child marker unset / 1 / 2 / junk, crash-reporting flag, upload flag) calling the real Start concurrently with mode on / local / off / missing / garbage and the upload token absent / fresh / stale (incl. exactly 24 h), interleaved at file-system-call granularity (stat token, remove, exclusive create), some starters hours apart; spawned children run the real child path (marker rewrite, counter.Open, upload.Run) and the stubbed config download spawns a descendant that calls Start again; checked at every spawn: mode not off, spawner not a telemetry child or descendant, upload flag only with a token acquired in this call and requested, otherwise crash reporting requested; mode off: no mutating call, directory unchanged; within-24h family: at most one token acquisition (none if a fresh token exists); a third of the processes enter through MaybeChild before Start (only a process marked 1 may stay in it); mode files as the commands write them or hand-written (no date, trailing newline, CRLF, surrounding spaces); a separate per-user default directory with its own mode; the n-th start of a telemetry child may fail and the debug directory may exist (sidecar.log possibly a directory)",
+		Rule:        "one run = 2..8 starter processes (child marker unset / 1 / 2 / junk, crash-reporting flag, upload flag) calling the real Start concurrently with mode on / local / off / missing / garbage and the upload token absent / fresh / stale (incl. exactly 24 h), interleaved at file-system-call granularity (stat token, remove, exclusive create), some starters hours apart; spawned children run the real child path (marker rewrite, counter.Open, upload.Run) and the stubbed config download spawns a descendant that calls Start again; checked at every spawn: mode not off, spawner not a telemetry child or descendant, upload flag only with a token acquired in this call and requested, otherwise crash reporting requested; mode off: no mutating call, directory unchanged; within-24h family: at most one token acquisition (none if a fresh token exists); a third of the processes enter through MaybeChild before Start (only a process marked 1 may stay in it); mode files as the commands write them or hand-written (no date, trailing newline, CRLF, surrounding spaces); a separate per-user default directory with its own mode; the n-th start of a telemetry child may fail and the debug directory may exist (sidecar.log possibly a directory); marker near-misses (0, 3, 01, 1 with a trailing space, true, 11); an inherited upload variable; one file-system call of the run may fail; a process in the sidecar role may touch nothing before it has rewritten its marker",
 		Real:        []string{"Start, parent, startChild, child, uploaderChild, acquireUploadToken (start.go)", "counter.Open / internal/counter", "internal/upload.Run", "internal/telemetry"},
 		Stub:        []string{"process creation, environment, os.Exit, log.Fatal: simulated process table", "internal/crashmonitor.Parent/Child (they take over crash output and stdin)", "internal/configstore.Download: spawns a simulated `go mod download` descendant that calls Start with the inherited environment, then returns an empty config", "upload server (always 200)", "clock and file modification times"},
 		Assumptions: []string{"simulated processes share one address space: package-level state of internal/counter (the default file) is shared by them", "the statement is only-if: whether a child must be launched when permitted is not checked"},
@@ -273,7 +273,7 @@ var props = map[string]*propConfig{
 		Harness: "h3", Level: "exploration",
 		Families:    []family{{Name: "request-stream", Flags: map[string]string{"family": "requests"}, Quick: 8000, Thorough: 3200000}},
 		QuickBudget: 100 * time.Second, ThoroughBudget: 20 * time.Minute, Chunk: 50,
-		Rule:        "one run = a stream of 3..14 requests to the real upload handler behind its real middleware chain and a real file-system bucket: all methods; bodies that are valid approved reports (incl. ~100 KiB ones and hostile X values), reports with exactly one field invalid (week not a date, config not semver, X = 0, one unapproved program/version/Go version/GOOS/GOARCH/counter/stack, near-miss names), arbitrary bytes, well-formed JSON of the wrong shape, truncated and oversize JSON, duplicates; delivered through a body reader with short reads, a mid-stream error or an early end; after every request the answer class and the recursive listing of the storage directory are compared with a map object store and the reference configuration semantics; clauses that depend only on a pure function of the body are claimed for the request-stream/history part only; valid reports may carry fields the report type does not have or bytes after the JSON value (acceptance of the latter is not judged), and every stored object is decoded strictly: known fields only, one value; one report in five reuses the week and X of an accepted one with other content; bodies padded to limit-1 / limit / limit+1 with half of the requests declaring their length",
+		Rule:        "one run = a stream of 3..14 requests to the real upload handler behind its real middleware chain and a real file-system bucket: all methods; bodies that are valid approved reports (incl. ~100 KiB ones and hostile X values), reports with exactly one field invalid (week not a date, config not semver, X = 0, one unapproved program/version/Go version/GOOS/GOARCH/counter/stack, near-miss names), arbitrary bytes, well-formed JSON of the wrong shape, truncated and oversize JSON, duplicates; delivered through a body reader with short reads, a mid-stream error or an early end; after every request the answer class and the recursive listing of the storage directory are compared with a map object store and the reference configuration semantics; clauses that depend only on a pure function of the body are claimed for the request-stream/history part only; valid reports may carry fields the report type does not have or bytes after the JSON value (acceptance of the latter is not judged), and every stored object is decoded strictly: known fields only, one value; one report in five reuses the week and X of an accepted one with other content; bodies padded to limit-1 / limit / limit+1 with half of the requests declaring their length; request paths may name another week or none; bodies over the limit with a small complete value; content hashes of all stored objects are compared around every request",
 		Real:        []string{"godev/cmd/telemetrygodev handleUpload + validate", "godev/internal/middleware chain (Log, Timeout, RequestSize, Recover)", "godev/internal/content error-to-status mapping", "godev/internal/storage FSBucket", "internal/config"},
 		Stub:        []string{"no socket: requests are handed to ServeHTTP with a ResponseRecorder", "client body stream simulated (short reads, errors, early EOF)", "GCS backend not run"},
 		Assumptions: []string{"a body whose delivered prefix is itself complete JSON followed by trailing bytes is not judged (the documentation does not say)", "the URL path is a clean /upload/<date> (paths are not in the property's quantifier)"},
@@ -295,7 +295,7 @@ var props = map[string]*propConfig{
 		Harness: "h4", Level: "exploration",
 		Families:    []family{{Name: "merge-and-chart", Flags: map[string]string{"family": "worker"}, Quick: 5000, Thorough: 1600000}},
 		QuickBudget: 100 * time.Second, ThoroughBudget: 20 * time.Minute, Chunk: 50,
-		Rule:        "one run = 1..4 simulated days of stored reports (0..40 per day, sizes from tiny to just under the 100 KiB upload limit so that merged lines exceed 64 KiB, repeated X across days, several programs and buckets), the real handleMerge per day (sometimes skipping one) and the real handleChart for single days and ranges, with the bucket listing order and Go's map iteration order inside group/partition permuted by the tape; each chart is computed three times under different permutations; checked: one merged record per stored object decoding to it, NumReports, every partition value against the reference count of distinct report IDs, byte-identical output, 404 and no chart object for a range containing a day never merged; a day may have been merged before, when one of its objects was larger (same week and X stored again with less in it); the configuration lists pre-release Go versions and versions that are equal as semantic versions",
+		Rule:        "one run = 1..4 simulated days of stored reports (0..40 per day, sizes from tiny to just under the 100 KiB upload limit so that merged lines exceed 64 KiB, repeated X across days, several programs and buckets), the real handleMerge per day (sometimes skipping one) and the real handleChart for single days and ranges, with the bucket listing order and Go's map iteration order inside group/partition permuted by the tape; each chart is computed three times under different permutations; checked: one merged record per stored object decoding to it, NumReports, every partition value against the reference count of distinct report IDs, byte-identical output, 404 and no chart object for a range containing a day never merged; a day may have been merged before, when one of its objects was larger (same week and X stored again with less in it); the configuration lists pre-release Go versions and versions that are equal as semantic versions; objects are stored in several textual forms; reports may have no program or items outside the configuration; X with full mantissas, above 1 or negative; ranges of a week; between chart attempts the days are merged again in another listing order",
 		Real:        []string{"godev/cmd/worker handleMerge, readMergedReports, handleChart, group, charts, partition (instrumented: map iteration order)", "godev/internal/storage FSBucket", "internal/config"},
 		Stub:        []string{"bucket handles wrapped so that the listing order comes from the tape", "requests handed to the handlers with a ResponseRecorder", "GCS, Cloud Tasks not run"},
 		Assumptions: []string{"configuration Go versions are of the form go1.N.P (the development version maps to an empty bucket name)", "zero-count buckets may be present or absent"},
@@ -304,7 +304,7 @@ var props = map[string]*propConfig{
 		Harness: "h5", Level: "exploration",
 		Families:    []family{{Name: "store-histories", Flags: map[string]string{"family": "store"}, Quick: 8000, Thorough: 2400000}},
 		QuickBudget: 100 * time.Second, ThoroughBudget: 10 * time.Minute, Chunk: 100,
-		Rule:        "one run = a history of 4..19 write / overwrite / read / prefix-list operations on the real FSBucket against a map object store, over names of nested ordinary components and the object names the upload (week/%g-of-X.json incl. extreme floats), merge (date.json) and chart (date.json, start_end.json) services construct; names that are a path prefix of another stored name are not generated; every constructed name must resolve under the bucket directory and a sibling bucket must stay untouched; names get suffix siblings (.tmp, .bak, ~, .lock), one write in five is listed before it is closed, listings may overlap",
+		Rule:        "one run = a history of 4..19 write / overwrite / read / prefix-list operations on the real FSBucket against a map object store, over names of nested ordinary components and the object names the upload (week/%g-of-X.json incl. extreme floats), merge (date.json) and chart (date.json, start_end.json) services construct; names that are a path prefix of another stored name are not generated; every constructed name must resolve under the bucket directory and a sibling bucket must stay untouched; names get suffix siblings (.tmp, .bak, ~, .lock), one write in five is listed before it is closed, listings may overlap; explicit overwrites with shorter, empty or much longer content; a sibling bucket whose name extends this bucket's; the handle is re-created in mid-history",
 		Real:        []string{"godev/internal/storage FSBucket, FSObject, FSObjectIterator", "Linux tmpfs"},
 		Stub:        []string{"GCS backend not run"},
 		Assumptions: []string{"input-heavy property: claimed for the history part (sequences of operations against a model)"},
